@@ -3,9 +3,11 @@ import Reduino.Lemmas.C09
 /-
   C09 — Generated firmware is memory-safe and does not leak across loop() passes.
   Heap model of the emitted list helpers.  Main theorem: in the OWNED discipline (lists declared once from a maker,
-  then only append / remove / in-bounds indexing / len / assignment from another declared list) no history ever
-  produces a memory error, every live block is owned by exactly one list, and the number of live blocks equals the
+  then only append / remove / in-bounds indexing / len / assignment from another declared list / tuple swap
+  `x, y = y, x` of two declared lists) no history ever produces a memory error, every live block is owned by exactly one list, and the number of live blocks equals the
   number of non-empty lists — hence constant from pass to pass whenever the lists' emptiness pattern is.
+  The tuple swap exchanges the two structs and touches no block (`swap_exchanges`); lowering it through
+  `__redu_list_assign` instead would free a buffer a temporary still points to (`swap_via_assign_counterexample`).
   The forms outside the discipline are decided by counterexample (known findings K09a, K09b).
 -/
 namespace Reduino.Props.C09
@@ -35,6 +37,7 @@ def Owned (h : Heap) : Op → Prop
   | .remove x _ => declared h x
   | .get x i => declared h x ∧ -(Int.ofNat (lookup h x).size) ≤ i ∧ i < Int.ofNat (lookup h x).size
   | .len x => declared h x
+  | .swap x y => declared h x ∧ declared h y
 
 theorem inv_init : Inv {} := by
   refine ⟨List.nodup_nil, ?_, ?_, rfl⟩
@@ -77,6 +80,9 @@ theorem owned_step_safe (h : Heap) (op : Op) (hi : Inv h) (ho : Owned h op) :
     obtain ⟨c, hc⟩ := Reduino.Lemmas.C09.step_get x i hi' ho.1 ho.2.1 ho.2.2
     exact ⟨_, hc, hi⟩
   | len x => exact ⟨_, rfl, hi⟩
+  | swap x y =>
+    obtain ⟨o, h1, h2, _⟩ := Reduino.Lemmas.C09.step_swap x y hi' ho.1 ho.2
+    exact key ⟨o, h1, h2⟩
 
 /-- a history of owned operations (each admissible in the state it meets) never errs and keeps the invariant -/
 def OwnedRun : Heap → List Op → Prop
@@ -114,6 +120,16 @@ theorem get_value (h : Heap) (x : String) (i : Int) (hi : Inv h) (ho : Owned h (
   obtain ⟨c, hc⟩ := Reduino.Lemmas.C09.step_get x i hi' ho.1 ho.2.1 ho.2.2
   exact ⟨_, c, hc, rfl, rfl, rfl⟩
 
+/-- the tuple swap `x, y = y, x` of two declared lists: no memory error, invariant kept, no block touched (hence the
+    live-block count is unchanged), no value produced, and the two names have exchanged their list values -/
+theorem swap_exchanges (h : Heap) (x y : String) (hi : Inv h) (ho : Owned h (.swap x y)) :
+    ∃ o, step h (.swap x y) = .ok o ∧ Inv o.heap ∧ o.heap.blocks = h.blocks ∧ liveBlocks o.heap = liveBlocks h ∧
+      o.value = none ∧ lookup o.heap x = lookup h y ∧ lookup o.heap y = lookup h x := by
+  have hi' := (inv_iff h).1 hi
+  obtain ⟨bs, vs⟩ := h
+  obtain ⟨o, h1, h2, h3, h4, h5, h6⟩ := Reduino.Lemmas.C09.step_swap x y hi' ho.1 ho.2
+  exact ⟨o, h1, (inv_iff _).2 h2, h3, by simp only [liveBlocks, h3], h4, h5, h6⟩
+
 /-! ### outside the discipline -/
 
 /-- first copy `b = a` shares the buffer: append through `a` frees it, reading `b` is a use after free (K09a) -/
@@ -138,6 +154,18 @@ theorem temp_leak_counterexample :
     ((run {} [.declMake "a" [1, 2, 3], .assignTemp "a" [4, 5, 6], .assignTemp "a" [4, 5, 6]]).toOption.map liveBlocks = some 3) := by
   decide
 
+/-- the WRONG lowering of `a, b = b, a` — shallow temporaries, then `__redu_list_assign(a, t0); __redu_list_assign(b, t1)`
+    instead of plain struct assignments: the first assign frees `a`'s buffer, which `t1` still points to, and the second
+    assign copies out of it.  The emitted lowering (`Op.swap`) from the same state is safe with the heap unchanged. -/
+theorem swap_via_assign_counterexample :
+    run {} [.declMake "a" [1, 2, 3], .declMake "b" [7, 8, 9, 10],
+            .declCopy "t0" "b", .declCopy "t1" "a", .assignVar "a" "t0", .assignVar "b" "t1"] = .error .useAfterFree ∧
+    (run {} [.declMake "a" [1, 2, 3], .declMake "b" [7, 8, 9, 10]]).toOption.map liveBlocks = some 2 ∧
+    (run {} [.declMake "a" [1, 2, 3], .declMake "b" [7, 8, 9, 10], .swap "a" "b"]).toOption.map liveBlocks = some 2 ∧
+    (run {} [.declMake "a" [1, 2, 3], .declMake "b" [7, 8, 9, 10], .swap "a" "b"]).toOption.map
+      (fun h => (lookup h "a", lookup h "b")) = some (⟨some 1, 4⟩, ⟨some 0, 3⟩) := by
+  refine ⟨rfl, ?_, ?_, ?_⟩ <;> decide
+
 /-- a list declared inside loop() is re-made every pass and never freed -/
 theorem loop_local_leak_counterexample :
     (run {} [.declMake "t" [1], .declMake "t" [1], .declMake "t" [1]]).toOption.map liveBlocks = some 3 := by
@@ -158,6 +186,40 @@ example : OwnedRun {} [.declMake "a" [1, 2], .append "a" 3, .get "a" (-1), .remo
   refine ownedRun_cons ⟨⟨[⟨false, [1, 2]⟩, ⟨true, [1, 2, 3]⟩], [("a", ⟨some 1, 3⟩)]⟩, some 3⟩ rfl
     (by simp only [Owned, declared]; decide) ?_
   refine ownedRun_cons ⟨⟨[⟨false, [1, 2]⟩, ⟨false, [1, 2, 3]⟩, ⟨true, [2, 3]⟩], [("a", ⟨some 2, 2⟩)]⟩, none⟩ rfl
+    (by simp only [Owned, declared]; decide) ?_
+  trivial
+
+/-- non-vacuity of the swap: two lists of different lengths are exchanged, then both are appended to, read (the read of
+    `a` at index 3 is only in bounds because `a` now is the four-element list) and removed from -/
+example : OwnedRun {} [.declMake "a" [1, 2, 3], .declMake "b" [7, 8, 9, 10], .swap "a" "b",
+    .get "a" 3, .get "b" (-1), .append "a" 5, .append "b" 6, .get "a" 4, .remove "a" 7, .remove "b" 1, .swap "b" "a",
+    .len "a"] := by
+  refine ownedRun_cons ⟨⟨[⟨true, [1, 2, 3]⟩], [("a", ⟨some 0, 3⟩)]⟩, none⟩ rfl
+    (by simp only [Owned, declared]; decide) ?_
+  refine ownedRun_cons ⟨⟨[⟨true, [1, 2, 3]⟩, ⟨true, [7, 8, 9, 10]⟩], [("b", ⟨some 1, 4⟩), ("a", ⟨some 0, 3⟩)]⟩, none⟩ rfl
+    (by simp only [Owned, declared]; decide) ?_
+  refine ownedRun_cons ⟨⟨[⟨true, [1, 2, 3]⟩, ⟨true, [7, 8, 9, 10]⟩], [("b", ⟨some 0, 3⟩), ("a", ⟨some 1, 4⟩)]⟩, none⟩ rfl
+    (by simp only [Owned, declared]; decide) ?_
+  refine ownedRun_cons ⟨⟨[⟨true, [1, 2, 3]⟩, ⟨true, [7, 8, 9, 10]⟩], [("b", ⟨some 0, 3⟩), ("a", ⟨some 1, 4⟩)]⟩, some 10⟩ rfl
+    (by simp only [Owned, declared]; decide) ?_
+  refine ownedRun_cons ⟨⟨[⟨true, [1, 2, 3]⟩, ⟨true, [7, 8, 9, 10]⟩], [("b", ⟨some 0, 3⟩), ("a", ⟨some 1, 4⟩)]⟩, some 3⟩ rfl
+    (by simp only [Owned, declared]; decide) ?_
+  refine ownedRun_cons ⟨⟨[⟨true, [1, 2, 3]⟩, ⟨false, [7, 8, 9, 10]⟩, ⟨true, [7, 8, 9, 10, 5]⟩],
+    [("a", ⟨some 2, 5⟩), ("b", ⟨some 0, 3⟩)]⟩, none⟩ rfl (by simp only [Owned, declared]; decide) ?_
+  refine ownedRun_cons ⟨⟨[⟨false, [1, 2, 3]⟩, ⟨false, [7, 8, 9, 10]⟩, ⟨true, [7, 8, 9, 10, 5]⟩, ⟨true, [1, 2, 3, 6]⟩],
+    [("b", ⟨some 3, 4⟩), ("a", ⟨some 2, 5⟩)]⟩, none⟩ rfl (by simp only [Owned, declared]; decide) ?_
+  refine ownedRun_cons ⟨⟨[⟨false, [1, 2, 3]⟩, ⟨false, [7, 8, 9, 10]⟩, ⟨true, [7, 8, 9, 10, 5]⟩, ⟨true, [1, 2, 3, 6]⟩],
+    [("b", ⟨some 3, 4⟩), ("a", ⟨some 2, 5⟩)]⟩, some 5⟩ rfl (by simp only [Owned, declared]; decide) ?_
+  refine ownedRun_cons ⟨⟨[⟨false, [1, 2, 3]⟩, ⟨false, [7, 8, 9, 10]⟩, ⟨false, [7, 8, 9, 10, 5]⟩, ⟨true, [1, 2, 3, 6]⟩,
+    ⟨true, [8, 9, 10, 5]⟩], [("a", ⟨some 4, 4⟩), ("b", ⟨some 3, 4⟩)]⟩, none⟩ rfl (by simp only [Owned, declared]; decide) ?_
+  refine ownedRun_cons ⟨⟨[⟨false, [1, 2, 3]⟩, ⟨false, [7, 8, 9, 10]⟩, ⟨false, [7, 8, 9, 10, 5]⟩, ⟨false, [1, 2, 3, 6]⟩,
+    ⟨true, [8, 9, 10, 5]⟩, ⟨true, [2, 3, 6]⟩], [("b", ⟨some 5, 3⟩), ("a", ⟨some 4, 4⟩)]⟩, none⟩ rfl
+    (by simp only [Owned, declared]; decide) ?_
+  refine ownedRun_cons ⟨⟨[⟨false, [1, 2, 3]⟩, ⟨false, [7, 8, 9, 10]⟩, ⟨false, [7, 8, 9, 10, 5]⟩, ⟨false, [1, 2, 3, 6]⟩,
+    ⟨true, [8, 9, 10, 5]⟩, ⟨true, [2, 3, 6]⟩], [("a", ⟨some 5, 3⟩), ("b", ⟨some 4, 4⟩)]⟩, none⟩ rfl
+    (by simp only [Owned, declared]; decide) ?_
+  refine ownedRun_cons ⟨⟨[⟨false, [1, 2, 3]⟩, ⟨false, [7, 8, 9, 10]⟩, ⟨false, [7, 8, 9, 10, 5]⟩, ⟨false, [1, 2, 3, 6]⟩,
+    ⟨true, [8, 9, 10, 5]⟩, ⟨true, [2, 3, 6]⟩], [("a", ⟨some 5, 3⟩), ("b", ⟨some 4, 4⟩)]⟩, some 3⟩ rfl
     (by simp only [Owned, declared]; decide) ?_
   trivial
 
